@@ -177,6 +177,7 @@ func (server *Server) ServeCodec(codec ServerCodec) {
 			})
 		}
 	}
+	pipeline.Close()
 	wg.Wait()
 	server.mutex.Lock()
 	server.deleteCodec(codec)
@@ -189,7 +190,6 @@ func (server *Server) ServeCodec(codec ServerCodec) {
 		ctx.stream.Close()
 	}
 	readStream.Close()
-	pipeline.Close()
 }
 
 // deleteCodec closes the specified codec.
@@ -527,6 +527,9 @@ func (server *Server) listen(sock socket.Socket, address string, New NewServerCo
 			}
 			if err == io.EOF || err == io.ErrUnexpectedEOF {
 				if atomic.CompareAndSwapInt32(&svrctx.closed, 0, 1) {
+					if svrctx.pipeline != nil {
+						svrctx.pipeline.Close()
+					}
 					svrctx.wg.Wait()
 					server.mutex.Lock()
 					delete(codecs, svrctx.codec)
@@ -538,9 +541,6 @@ func (server *Server) listen(sock socket.Socket, address string, New NewServerCo
 					}
 					if svrctx.readStream != nil {
 						svrctx.readStream.Close()
-					}
-					if svrctx.pipeline != nil {
-						svrctx.pipeline.Close()
 					}
 				}
 			}
